@@ -1238,13 +1238,19 @@ def apply_deletions(doc, done):
     return doc2
 
 
-def defaults_outcome(c, doc, done):
-    """(status, impl text, expected text, holds?) for one set of deletions, everything on fresh schemas"""
+def defaults_outcome(c, doc, done, full_model=None):
+    """(status, impl text, expected text, holds?) for one set of deletions, everything on fresh schemas.
+    full_model = the model's reading of the complete document: when json_reader misreads even that, the case is left to
+    corr:json-read (the expectation below starts from the implementation's reading of the complete document)"""
     parsed, named = fresh(c)
     doc2 = apply_deletions(doc, done)
     full = impl_json_read(fresh(c)[0], json.dumps(doc))
     if full[0] != "ok" or len(full[1]) != 1:
         return ("unreadable", None, None, None, doc2, None)
+    if full_model is not None:
+        mok, mval = model_value(by_value(full_model))
+        if not (mok and same_by_value(full[1][0], mval)):
+            return ("unreadable", None, None, None, doc2, None)
     rd = impl_json_read(fresh(c)[0], json.dumps(doc2))
     expect = json_clone(full[1][0])
     try:
@@ -1281,16 +1287,16 @@ def check_defaults(ctx, cases, model_by_case, stats):
             for path, f in sorted(chosen, key=lambda pf: len(pf[0])):
                 if not any(tuple(path[:len(p) + 1]) == tuple(p) + (g["name"],) for p, g in done):
                     done.append((path, f))
-            jobs.append((c, r, doc, done))
+            jobs.append((c, r, doc, done, m[1]))
             if c.tag == "defaults" or not ctx.quick():       # every defaulted key on its own
-                jobs += [(c, r, doc, [d]) for d in dels[:40] if [d] != done]
+                jobs += [(c, r, doc, [d], m[1]) for d in dels[:40] if [d] != done]
             break                                           # one record per case
     exprs = ["run_jread %s %s %s" % (G.env_to_coq(c.named), G.schema_to_coq(fresh(c)[0]), jv_to_coq(apply_deletions(doc, done)))
-             for c, r, doc, done in jobs]
+             for c, r, doc, done, fm in jobs]
     outs = run_model(ctx, exprs, "c15d")
     twice = 0
-    for (c, r, doc, done), mo in zip(jobs, outs):
-        st, got, expect, holds, doc2, val = defaults_outcome(c, doc, done)
+    for (c, r, doc, done, fm), mo in zip(jobs, outs):
+        st, got, expect, holds, doc2, val = defaults_outcome(c, doc, done, fm)
         if st == "unreadable":
             stats["defaults_skipped_document_unreadable"] = stats.get("defaults_skipped_document_unreadable", 0) + 1
             continue                                        # reported by corr:json-read
@@ -1300,7 +1306,7 @@ def check_defaults(ctx, cases, model_by_case, stats):
             # minimise to a single deletion showing the same symptom
             one = done
             for d in done:
-                st1, got1, exp1, holds1, doc21, _ = defaults_outcome(c, doc, [d])
+                st1, got1, exp1, holds1, doc21, _ = defaults_outcome(c, doc, [d], fm)
                 if not holds1 and (st1, got1 if st1 == "raised" else None) == (st, got if st == "raised" else None):
                     one, got, expect, doc2 = [d], got1, exp1, doc21
                     break
@@ -1392,11 +1398,15 @@ def replay(ctx, rep):
     case = rep["case"]
     c = JCase.from_json(case)
     if rep.get("name", "").startswith("corr:json-defaults") and "deleted" in case:
-        doc = parse_jv(split_model(run_model(ctx, [expr_json(c, c.records[0])], "rp")[0])[0])
+        sm = split_model(run_model(ctx, [expr_json(c, c.records[0])], "rp")[0])
+        doc = parse_jv(sm[0])
         parsed, named = fresh(c)
         dels = deletions(ctx.rng, doc, parsed, named)
         done = [(p, f) for p, f in dels if [list(map(str, p)), f["name"]] in case["deleted"]]
-        st, got, expect, holds, doc2, _ = defaults_outcome(c, doc, done)
+        st, got, expect, holds, doc2, _ = defaults_outcome(c, doc, done, sm[1])
+        if st == "unreadable":
+            print("json_reader misreads the complete document already (corr:json-read reports that); nothing to check here")
+            return True
         t = json.dumps(doc2)
         rd2 = impl_json_read(fresh(c)[0], t + "\n" + t)
         twice = rd2[0] == "ok" and len(rd2[1]) == 2 and same_by_value(rd2[1][0], rd2[1][1])
